@@ -290,11 +290,14 @@ def job_static(job):
         if o.kind == "raise" and len(conn.incoming_buffer._headers_buffer) > 65:
             bad("continuation-buffer-kept", "buffered %d frames" % len(conn.incoming_buffer._headers_buffer), {"layer": "static", "client": client})
     # (c) header list size limits
-    for limit in (65536, 100, 65537):
+    for limit, later in ((65536, None), (100, None), (65537, None), (200, 60000), (60000, 200)):
         h = H.Solo(client)
         h.rx([wire.settings([], ack=True)])
         if limit != 65536:
             h.api("update_settings", {wire.S_MAX_HEADER_LIST_SIZE: limit})
+            if later is not None:
+                # a second change is already in flight when the first one is acknowledged: the ACKNOWLEDGED value binds
+                h.api("update_settings", {wire.S_MAX_HEADER_LIST_SIZE: later})
             h.rx([wire.settings([], ack=True)])
         if client:
             h.api("send_headers", 1, H.ni(H.REQ_POST))
